@@ -7,10 +7,32 @@
 //        -> ok fit <v> outs <o|u>*n diff <d>*n
 //   con <penalty> <mae|…> <fast> <prog> <n> rows…            (constrained_evaluator around reg)
 //        -> ok fitv <k> <v>*k outs … diff …
-//   cls <dyn|gau|bin> <x_slot> <prog> <n> (<class> <x1|u> <x2|u> <difficulty>)*n
-//        -> ok fit <v> classes <C> tags (<label> <sureness>)*n labels <l>*n diff <d>*n
-//   ga <value>                                               (ga_evaluator over i_ga)
+//   cls|clsf <dyn|gau|bin> <x_slot> <prog> <n> (<class> <x1|u> <x2|u> <difficulty>)*n
+//        (clsf: `fast()` called through a reference to the base class `evaluator<T>`)
+//        -> ok fit <v> classes <C> members <M> mouts (<o|u>*n)*M tags (<label> <sureness>)*n labels <l>*n diff <d>*n
+//        `mouts` = the per-example output of every member program (1 for an individual), computed with a
+//        separate basic_reg_lambda_f: the input of the documented classification rule
+//   ga|gaf|de|def <value>                                    (ga_evaluator over i_ga / i_de; f = `fast()`)
 //        -> ok fitv <k> <v>*k
+//   gac <ptype> <penalty> <fast 0|1> <ga|de> <value>         (constrained_evaluator around ga_evaluator)
+//        -> ok fitv <k> <v>*k
+//   conp <ptype> <penalty> <mae|count> <fast> <prog> <n> rows…  (individuals only; constrained_evaluator, penalty function of
+//        return type <ptype>: d double lambda, fn penalty_func_t (std::function), fl float, i int,
+//        u unsigned, l long long, ul std::size_t, b bool; <penalty> = bit pattern (d, fn, fl) or a decimal integer)
+//        -> ok fitv <k> <v>*k outs … diff …
+//   hist <reg|cls> <kind> <fast 0|1> <x_slot> <prog> op…      ONE evaluator object bound to ONE dataframe that changes under it
+//        ops:  C (construct the evaluator now: possibly on the still empty frame)   V (evaluate now)   E <k> (erase the first k rows)
+//              L <n> rows… (reload: read_csv again for cls – the class table only grows –, clear + push_back for reg)
+//              A <n> rows… (append: push_back; a new class name is registered with dataframe::encode)
+//        rows as in reg / cls.  -> ok rec | rec | …  one record per V:  skip-<why>  or
+//              reg:  fit <v> targets <t>*n dbefore <d>*n outs <o>*n diff <d>*n
+//              cls:  fit <v> classes <C> members <M> mouts … tags … labels <l>*n dbefore <d>*n diff <d>*n
+//   big <kind> <fast 0|1> <x_slot> <n> <k> <pos>*k              scale-directed case built here: program X1,
+//        cls kinds: class A (even rows) X1 = -100, class B (odd rows) X1 = +100, the k rows <pos> (odd) are of class B with X1 = -100;
+//        reg kinds: X1 = (i mod 7) - 3, target = X1 except target = X1 + 1 on the k rows <pos>
+//        -> ok fit <v> n <N> moved <number of rows whose difficulty changed> rows <their indices, at most 20>
+//   tev <distinct|fixed|random> <fast 0|1> <k> <id>*k         (test_evaluator<i_de>, one object, k calls; the
+//        individual with id i has genome {i})      -> ok seq <v>*k   (`size=<s>` for a fitness of another size)
 //   small <value>  -> 0 | 1                                  (vita::issmall)
 //
 // doubles: decimal 64-bit patterns, `nan` = any NaN, `u` = no value (empty value_t).
@@ -19,6 +41,7 @@
 
 #include "kernel/vita.h"
 #include "kernel/ga/i_ga.h"
+#include "kernel/ga/i_de.h"
 #include "kernel/ga/evaluator.h"
 #include "kernel/constrained_evaluator.h"
 #include "kernel/gp/src/evaluator.h"
@@ -28,6 +51,7 @@
 #include "kernel/gp/team.h"
 
 #include <cmath>
+#include <map>
 #include <sstream>
 
 using namespace vita;
@@ -121,9 +145,53 @@ std::string showfitv(const fitness_t &f)
   return s;
 }
 
+// ---- penalties of every shape ------------------------------------------------------------
+// A penalty "shape" is the return type of the penalty function handed to constrained_evaluator.
+struct pen_spec
+{
+  std::string type;      // d fn fl i u l ul b
+  double dv = 0.0;       // d, fn, fl
+  long long iv = 0;      // i, u, l, b
+  unsigned long long uv = 0;  // ul
+};
+
+bool parse_pen(const std::string &type, const std::string &val, pen_spec &p)
+{
+  p.type = type;
+  if (type == "d" || type == "fn" || type == "fl") return parsef(val, p.dv);
+  if (type == "ul")
+  {
+    if (val.empty() || val.find_first_not_of("0123456789") != std::string::npos) return false;
+    p.uv = std::stoull(val);
+    return true;
+  }
+  if (type == "i" || type == "u" || type == "l" || type == "b")
+  {
+    if (val.empty()) return false;
+    p.iv = std::stoll(val);
+    return true;
+  }
+  return false;
+}
+
+// Calls `k(penalty function)` with a function of the requested return type.
+template<class T, class K>
+std::string with_penalty(const pen_spec &p, K k)
+{
+  if (p.type == "d") { const double v(p.dv); return k([v](const T &) { return v; }); }
+  if (p.type == "fn") { const double v(p.dv); return k(penalty_func_t<T>([v](const T &) { return v; })); }
+  if (p.type == "fl") { const float v(static_cast<float>(p.dv)); return k([v](const T &) { return v; }); }
+  if (p.type == "i") { const int v(static_cast<int>(p.iv)); return k([v](const T &) { return v; }); }
+  if (p.type == "u") { const unsigned v(static_cast<unsigned>(p.iv)); return k([v](const T &) { return v; }); }
+  if (p.type == "l") { const long long v(p.iv); return k([v](const T &) { return v; }); }
+  if (p.type == "ul") { const std::size_t v(static_cast<std::size_t>(p.uv)); return k([v](const T &) { return v; }); }
+  if (p.type == "b") { const bool v(p.iv != 0); return k([v](const T &) { return v; }); }
+  return "bad-op";
+}
+
 // ---- regression --------------------------------------------------------------------------
 template<class T, class EVA>
-std::string run_reg(const T &prg, dataframe &d, bool fast, const double *pen)
+std::string run_reg(const T &prg, dataframe &d, bool fast, const pen_spec *pen)
 {
   // the program's outputs, computed independently of the evaluator
   std::string outs(" outs");
@@ -135,15 +203,29 @@ std::string run_reg(const T &prg, dataframe &d, bool fast, const double *pen)
   std::string res;
   if (pen)
   {
-    const double p(*pen);
-    auto pf = [p](const T &) { return p; };
-    constrained_evaluator<T, EVA, decltype(pf)> ce(EVA(d), pf);
-    res = showfitv(fast ? ce.fast(prg) : ce(prg));
+    auto run = [&](auto pf) {
+      constrained_evaluator<T, EVA, decltype(pf)> ce(EVA(d), pf);
+      evaluator<T> &base(ce);                     // virtual dispatch, as the search classes do
+      return showfitv(fast ? base.fast(prg) : base(prg));
+    };
+    if (pen->type == "d")
+    {
+      const double v(pen->dv);
+      res = run([v](const T &) { return v; });
+    }
+    else if constexpr (std::is_same_v<EVA, mae_evaluator<i_mep>> || std::is_same_v<EVA, count_evaluator<i_mep>>)
+      // the other return types of the penalty function: the base evaluator is immaterial, two are
+      // instantiated (compile time)
+      res = with_penalty<T>(*pen, run);
+    else
+      return "bad-op";
+    if (res == "bad-op") return res;
   }
   else
   {
     EVA eva(d);
-    res = showfit(fast ? eva.fast(prg) : eva(prg));
+    evaluator<T> &base(eva);
+    res = showfit(fast ? base.fast(prg) : base(prg));
   }
 
   std::string diff(" diff");
@@ -153,7 +235,7 @@ std::string run_reg(const T &prg, dataframe &d, bool fast, const double *pen)
 
 template<class T>
 std::string run_reg_kind(const std::string &kind, const T &prg, dataframe &d, bool fast,
-                         const double *pen)
+                         const pen_spec *pen)
 {
   if (kind == "mae") return run_reg<T, mae_evaluator<T>>(prg, d, fast, pen);
   if (kind == "rmae") return run_reg<T, rmae_evaluator<T>>(prg, d, fast, pen);
@@ -162,7 +244,7 @@ std::string run_reg_kind(const std::string &kind, const T &prg, dataframe &d, bo
   return "bad-op";
 }
 
-std::string do_reg(symbols &S, const std::vector<std::string> &t, std::size_t at, const double *pen)
+std::string do_reg(symbols &S, const std::vector<std::string> &t, std::size_t at, const pen_spec *pen)
 {
   // t[at..] = kind fast prog n rows…
   if (t.size() < at + 4) return "bad-op";
@@ -198,9 +280,21 @@ std::string do_reg(symbols &S, const std::vector<std::string> &t, std::size_t at
 }
 
 // ---- classification ----------------------------------------------------------------------
+std::vector<i_mep> members_of(const i_mep &p) { return {p}; }
+std::vector<i_mep> members_of(const team<i_mep> &t) { return std::vector<i_mep>(t.begin(), t.end()); }
+
 template<class T, class L, class EVA, class... A>
-std::string run_cls(const T &prg, dataframe &d, A... a)
+std::string run_cls(const T &prg, dataframe &d, bool fast, A... a)
 {
+  // the output of every member program on every example: what the documented rules start from
+  const auto ms(members_of(prg));
+  std::string mouts(" members " + std::to_string(ms.size()) + " mouts");
+  for (const auto &m : ms)
+  {
+    basic_reg_lambda_f<i_mep, false> agent(m);
+    for (const auto &e : d) mouts += " " + show(agent(e));
+  }
+
   std::string tags(" tags"), labels(" labels");
   {
     L lambda(prg, d, a...);
@@ -213,26 +307,27 @@ std::string run_cls(const T &prg, dataframe &d, A... a)
   }
 
   EVA eva(d, a...);
-  const auto fit(eva(prg));
+  evaluator<T> &base(eva);
+  const auto fit(fast ? base.fast(prg) : base(prg));
 
   std::string diff(" diff");
   for (const auto &e : d) diff += " " + std::to_string(e.difficulty);
-  return "ok " + showfit(fit) + " classes " + std::to_string(d.classes()) + tags + labels + diff;
+  return "ok " + showfit(fit) + " classes " + std::to_string(d.classes()) + mouts + tags + labels + diff;
 }
 
 template<class T>
-std::string run_cls_kind(const std::string &kind, unsigned x_slot, const T &prg, dataframe &d)
+std::string run_cls_kind(const std::string &kind, unsigned x_slot, const T &prg, dataframe &d, bool fast)
 {
   if (kind == "dyn")
-    return run_cls<T, basic_dyn_slot_lambda_f<T, false, false>, dyn_slot_evaluator<T>>(prg, d, x_slot);
+    return run_cls<T, basic_dyn_slot_lambda_f<T, false, false>, dyn_slot_evaluator<T>>(prg, d, fast, x_slot);
   if (kind == "gau")
-    return run_cls<T, basic_gaussian_lambda_f<T, false, false>, gaussian_evaluator<T>>(prg, d);
+    return run_cls<T, basic_gaussian_lambda_f<T, false, false>, gaussian_evaluator<T>>(prg, d, fast);
   if (kind == "bin")
-    return run_cls<T, basic_binary_lambda_f<T, false, false>, binary_evaluator<T>>(prg, d);
+    return run_cls<T, basic_binary_lambda_f<T, false, false>, binary_evaluator<T>>(prg, d, fast);
   return "bad-op";
 }
 
-std::string do_cls(symbols &S, const std::vector<std::string> &t)
+std::string do_cls(symbols &S, const std::vector<std::string> &t, bool fast)
 {
   // cls kind x_slot prog n rows…
   if (t.size() < 5) return "bad-op";
@@ -266,11 +361,36 @@ std::string do_cls(symbols &S, const std::vector<std::string> &t)
     std::vector<i_mep> members;
     for (const auto &p : split_on(prog.substr(2), ',')) members.push_back(S.make(p));
     const team<i_mep> tm(members);
-    return run_cls_kind(kind, x_slot, tm, d);
+    return run_cls_kind(kind, x_slot, tm, d, fast);
   }
 
   const i_mep ind(S.make(prog));
-  return run_cls_kind(kind, x_slot, ind, d);
+  return run_cls_kind(kind, x_slot, ind, d, fast);
+}
+
+// ---- GA / DE -----------------------------------------------------------------------------
+// The objective function reads its value from the individual's genome.
+template<class T> T make_param_ind(double v);
+template<> i_ga make_param_ind<i_ga>(double) { return i_ga{}; }
+template<> i_de make_param_ind<i_de>(double v) { i_de x; x = std::vector<double>{v}; return x; }
+
+template<class T>
+std::string run_ga(double v, bool fast, const pen_spec *pen)
+{
+  const T ind(make_param_ind<T>(v));
+  auto f = [v](const T &x) {
+    if constexpr (std::is_same_v<T, i_de>) return x[0];
+    else return v;
+  };
+  if (pen)
+    return with_penalty<T>(*pen, [&](auto pf) {
+      constrained_evaluator<T, ga_evaluator<T, decltype(f)>, decltype(pf)> ce(make_ga_evaluator<T>(f), pf);
+      evaluator<T> &base(ce);
+      return "ok " + showfitv(fast ? base.fast(ind) : base(ind));
+    });
+  auto eva(make_ga_evaluator<T>(f));
+  evaluator<T> &base(eva);
+  return "ok " + showfitv(fast ? base.fast(ind) : base(ind));
 }
 
 std::string do_ga(const std::vector<std::string> &t)
@@ -278,10 +398,289 @@ std::string do_ga(const std::vector<std::string> &t)
   if (t.size() != 2) return "bad-op";
   double v;
   if (!parsef(t[1], v)) return "bad-op";
-  auto f = [v](const i_ga &) { return v; };
-  auto eva(make_ga_evaluator<i_ga>(f));
-  const i_ga ind{};
-  return "ok " + showfitv(eva(ind));
+  const bool fast(t[0] == "gaf" || t[0] == "def");
+  if (t[0] == "de" || t[0] == "def") return run_ga<i_de>(v, fast, nullptr);
+  return run_ga<i_ga>(v, fast, nullptr);
+}
+
+std::string do_gac(const std::vector<std::string> &t)
+{
+  // gac ptype penalty fast ga|de value
+  if (t.size() != 6) return "bad-op";
+  pen_spec p;
+  double v;
+  if (!parse_pen(t[1], t[2], p) || !parsef(t[5], v)) return "bad-op";
+  const bool fast(t[3] == "1");
+  if (t[4] == "de") return run_ga<i_de>(v, fast, &p);
+  if (t[4] == "ga") return run_ga<i_ga>(v, fast, &p);
+  return "bad-op";
+}
+
+// ---- histories: one evaluator object, a dataframe that changes under it ------------------
+template<class T>
+std::unique_ptr<evaluator<T>> make_eva(const std::string &kind, dataframe &d, unsigned x_slot)
+{
+  if (kind == "mae") return std::make_unique<mae_evaluator<T>>(d);
+  if (kind == "rmae") return std::make_unique<rmae_evaluator<T>>(d);
+  if (kind == "mse") return std::make_unique<mse_evaluator<T>>(d);
+  if (kind == "count") return std::make_unique<count_evaluator<T>>(d);
+  if (kind == "dyn") return std::make_unique<dyn_slot_evaluator<T>>(d, x_slot);
+  if (kind == "gau") return std::make_unique<gaussian_evaluator<T>>(d);
+  if (kind == "bin") return std::make_unique<binary_evaluator<T>>(d);
+  return nullptr;
+}
+
+template<class T>
+std::string tags_of(const std::string &kind, const T &prg, dataframe &d, unsigned x_slot)
+{
+  std::string tags(" tags");
+  auto dump = [&](const auto &lambda) {
+    for (const auto &e : d)
+    {
+      const auto r(lambda.tag(e));
+      tags += " " + std::to_string(r.label) + " " + showf(r.sureness);
+    }
+  };
+  if (kind == "dyn") dump(basic_dyn_slot_lambda_f<T, false, false>(prg, d, x_slot));
+  else if (kind == "gau") dump(basic_gaussian_lambda_f<T, false, false>(prg, d));
+  else dump(basic_binary_lambda_f<T, false, false>(prg, d));
+  return tags;
+}
+
+// `ids` mirrors the class table of the dataframe (names get consecutive ids in order of first import)
+bool parse_row(const std::vector<std::string> &t, std::size_t b, bool cls,
+               const std::map<std::string, class_t> &ids, dataframe::example &ex)
+{
+  if (cls)
+  {
+    const auto it(ids.find(t[b]));
+    if (it == ids.end()) return false;      // appended rows use classes the importer has seen
+    ex.output = static_cast<D_INT>(it->second);
+  }
+  else
+  {
+    double tg;
+    if (!parsef(t[b], tg)) return false;
+    ex.output = tg;
+  }
+  ex.input = {parsev(t[b + 1]), parsev(t[b + 2])};
+  ex.difficulty = std::stoull(t[b + 3]);
+  return true;
+}
+
+template<class T>
+std::string run_hist(const T &prg, bool cls, const std::string &kind, bool fast, unsigned x_slot,
+                     const std::vector<std::string> &t, std::size_t p)
+{
+  dataframe d;
+  std::map<std::string, class_t> ids;
+  std::unique_ptr<evaluator<T>> eva;
+  std::string ans("ok");
+  bool first(true);
+
+  while (p < t.size())
+  {
+    const std::string op(t[p++]);
+    if (op == "C") eva = make_eva<T>(kind, d, x_slot);
+    else if (op == "E")
+    {
+      if (p >= t.size()) return "bad-op";
+      const std::size_t k(std::min<std::size_t>(std::stoull(t[p++]), d.size()));
+      d.erase(d.begin(), std::next(d.begin(), static_cast<std::ptrdiff_t>(k)));
+    }
+    else if (op == "L" || op == "A")
+    {
+      if (p >= t.size()) return "bad-op";
+      const std::size_t n(std::stoull(t[p++]));
+      if (p + 4 * n > t.size()) return "bad-op";
+      if (op == "L")
+      {
+        if (cls)
+        {
+          // the importer run again on the same frame: rows replaced, the class table only grows
+          std::ostringstream csv;
+          for (std::size_t i(0); i < n; ++i) csv << "k" << t[p + 4 * i] << ",0.5,1.5\n";
+          std::istringstream in(csv.str());
+          if (d.read_csv(in, dataframe::params().no_header()) != n) return "bad-import";
+          std::size_t i(0);
+          for (auto &ex : d)
+          {
+            const auto it(ids.try_emplace(t[p + 4 * i], static_cast<class_t>(ids.size())).first);
+            if (it->second != label(ex)) return "bad-classmap";
+            ex.input = {parsev(t[p + 4 * i + 1]), parsev(t[p + 4 * i + 2])};
+            ex.difficulty = std::stoull(t[p + 4 * i + 3]);
+            ++i;
+          }
+          p += 4 * n;
+          continue;
+        }
+        d.clear();
+      }
+      for (std::size_t i(0); i < n; ++i, p += 4)
+      {
+        dataframe::example ex;
+        if (!parse_row(t, p, cls, ids, ex)) return "bad-op";
+        d.push_back(ex);
+      }
+    }
+    else if (op == "V")
+    {
+      ans += first ? " " : " | ";
+      first = false;
+      if (!eva) { ans += "skip-noeva"; continue; }
+      if (d.empty()) { ans += "skip-empty"; continue; }
+      if (cls && (d.classes() < 2 || (kind == "bin" && d.classes() != 2))) { ans += "skip-classes"; continue; }
+
+      std::string before(" dbefore");
+      for (const auto &e : d) before += " " + std::to_string(e.difficulty);
+
+      std::string mid;
+      if (cls)
+      {
+        const auto ms(members_of(prg));
+        mid = " classes " + std::to_string(d.classes()) + " members " + std::to_string(ms.size()) + " mouts";
+        for (const auto &m : ms)
+        {
+          basic_reg_lambda_f<i_mep, false> agent(m);
+          for (const auto &e : d) mid += " " + show(agent(e));
+        }
+        mid += tags_of(kind, prg, d, x_slot);
+        mid += " labels";
+        for (const auto &e : d) mid += " " + std::to_string(label(e));
+        mid += before;
+      }
+      else
+      {
+        mid = " targets";
+        for (const auto &e : d) mid += " " + showf(label_as<D_DOUBLE>(e));
+        mid += before + " outs";
+        basic_reg_lambda_f<T, false> agent(prg);
+        for (const auto &e : d) mid += " " + show(agent(e));
+      }
+
+      const auto fit(fast ? eva->fast(prg) : (*eva)(prg));
+
+      std::string diff(" diff");
+      for (const auto &e : d) diff += " " + std::to_string(e.difficulty);
+      ans += showfit(fit) + mid + diff;
+    }
+    else return "bad-op";
+  }
+  return ans;
+}
+
+std::string do_hist(symbols &S, const std::vector<std::string> &t)
+{
+  // hist reg|cls kind fast x_slot prog ops…
+  if (t.size() < 6) return "bad-op";
+  const bool cls(t[1] == "cls");
+  if (!cls && t[1] != "reg") return "bad-op";
+  const std::string kind(t[2]);
+  const bool is_cls_kind(kind == "dyn" || kind == "gau" || kind == "bin");
+  if (cls != is_cls_kind) return "bad-op";
+  const bool fast(t[3] == "1");
+  const unsigned x_slot(std::stoul(t[4]));
+  if (!x_slot) return "bad-op";
+  const std::string prog(t[5]);
+
+  if (prog.rfind("t:", 0) == 0)
+  {
+    std::vector<i_mep> members;
+    for (const auto &p : split_on(prog.substr(2), ',')) members.push_back(S.make(p));
+    const team<i_mep> tm(members);
+    return run_hist(tm, cls, kind, fast, x_slot, t, 6);
+  }
+  const i_mep ind(S.make(prog));
+  return run_hist(ind, cls, kind, fast, x_slot, t, 6);
+}
+
+// ---- scale-directed cases -----------------------------------------------------------------
+std::string do_big(symbols &S, const std::vector<std::string> &t)
+{
+  // big kind fast x_slot n k pos…
+  if (t.size() < 6) return "bad-op";
+  const std::string kind(t[1]);
+  const bool fast(t[2] == "1");
+  const unsigned x_slot(std::stoul(t[3]));
+  const std::size_t n(std::stoull(t[4])), k(std::stoull(t[5]));
+  if (t.size() != 6 + k || !x_slot) return "bad-op";
+  std::vector<bool> out(n, false);
+  for (std::size_t i(0); i < k; ++i)
+  {
+    const std::size_t pos(std::stoull(t[6 + i]));
+    if (pos >= n) return "bad-op";
+    out[pos] = true;
+  }
+  const bool cls(kind == "dyn" || kind == "gau" || kind == "bin");
+
+  dataframe d;
+  if (cls)
+  {
+    std::istringstream in("kA,0.5,1.5\nkB,0.5,1.5\n");
+    if (d.read_csv(in, dataframe::params().no_header()) != 2) return "bad-import";
+    d.clear();
+  }
+  for (std::size_t i(0); i < n; ++i)
+  {
+    dataframe::example ex;
+    if (cls)
+    {
+      const bool b(i % 2);
+      if (out[i] && !b) return "bad-op";
+      ex.output = static_cast<D_INT>(b ? 1 : 0);
+      ex.input = {(b && !out[i]) ? 100.0 : -100.0, 0.0};
+    }
+    else
+    {
+      const double x(static_cast<double>(i % 7) - 3.0);
+      ex.output = out[i] ? x + 1.0 : x;
+      ex.input = {x, 0.0};
+    }
+    ex.difficulty = 0;
+    d.push_back(ex);
+  }
+
+  const i_mep prg(S.make("x1"));
+  auto eva(make_eva<i_mep>(kind, d, x_slot));
+  if (!eva) return "bad-op";
+  const auto fit(fast ? eva->fast(prg) : (*eva)(prg));
+
+  std::size_t moved(0), i(0);
+  std::string rows;
+  for (const auto &e : d)
+  {
+    if (e.difficulty)
+    {
+      if (++moved <= 20) rows += " " + std::to_string(i);
+    }
+    ++i;
+  }
+  return "ok " + showfit(fit) + " n " + std::to_string(d.size()) + " moved " + std::to_string(moved) + " rows" + rows;
+}
+
+// ---- test_evaluator ----------------------------------------------------------------------
+std::string do_tev(const std::vector<std::string> &t)
+{
+  if (t.size() < 4) return "bad-op";
+  test_evaluator_type ty;
+  if (t[1] == "distinct") ty = test_evaluator_type::distinct;
+  else if (t[1] == "fixed") ty = test_evaluator_type::fixed;
+  else if (t[1] == "random") ty = test_evaluator_type::random;
+  else return "bad-op";
+  const bool fast(t[2] == "1");
+  const std::size_t k(std::stoull(t[3]));
+  if (t.size() != 4 + k) return "bad-op";
+
+  test_evaluator<i_de> eva(ty);
+  evaluator<i_de> &base(eva);
+  std::string seq("ok seq");
+  for (std::size_t i(0); i < k; ++i)
+  {
+    const auto fit(fast ? base.fast(make_param_ind<i_de>(std::stod(t[4 + i])))
+                        : base(make_param_ind<i_de>(std::stod(t[4 + i]))));
+    seq += fit.size() == 1 ? " " + showf(fit[0]) : " size=" + std::to_string(fit.size());
+  }
+  return seq;
 }
 }  // namespace
 
@@ -302,11 +701,21 @@ int main()
       if (t[0] == "reg") ans = do_reg(S, t, 1, nullptr);
       else if (t[0] == "con")
       {
-        double pen;
-        ans = (t.size() > 2 && parsef(t[1], pen)) ? do_reg(S, t, 2, &pen) : "bad-op";
+        pen_spec pen;
+        ans = (t.size() > 2 && parse_pen("d", t[1], pen)) ? do_reg(S, t, 2, &pen) : "bad-op";
       }
-      else if (t[0] == "cls") ans = do_cls(S, t);
-      else if (t[0] == "ga") ans = do_ga(t);
+      else if (t[0] == "conp")
+      {
+        pen_spec pen;
+        ans = (t.size() > 3 && parse_pen(t[1], t[2], pen)) ? do_reg(S, t, 3, &pen) : "bad-op";
+      }
+      else if (t[0] == "cls") ans = do_cls(S, t, false);
+      else if (t[0] == "clsf") ans = do_cls(S, t, true);
+      else if (t[0] == "ga" || t[0] == "gaf" || t[0] == "de" || t[0] == "def") ans = do_ga(t);
+      else if (t[0] == "gac") ans = do_gac(t);
+      else if (t[0] == "tev") ans = do_tev(t);
+      else if (t[0] == "hist") ans = do_hist(S, t);
+      else if (t[0] == "big") ans = do_big(S, t);
       else if (t[0] == "small")
       {
         double v;
